@@ -21,7 +21,9 @@ THEOREMS = [
     "PorepyVerif.C40.sot_copy_of_constructed",
     "PorepyVerif.C40.restrict_selects",
     "PorepyVerif.C40.sot_restrict_selects",
+    "PorepyVerif.C40.sot_restrict_coded_agrees",
     "PorepyVerif.C40.fot_restrict_selects",
+    "PorepyVerif.C40.fot_minor_symmetric",
     "PorepyVerif.C40.fot_symmetric",
     "PorepyVerif.C40.fot_constructor",
 ]
@@ -49,7 +51,10 @@ EXPLANATION = ("CORE: model over Q of the constructors (checks in code order, de
                "the constructor from the lower triangle, restrict_to_cells = copy + index. Proved for all inputs: constructed tensors are symmetric; "
                "rotate equals R K^T R^T entrywise (= R K R^T for symmetric K), is symmetric again for any R, and for R^T R = I preserves trace, second "
                "invariant, determinant and Mathlib's characteristic polynomial (hence eigenvalues with multiplicity); restriction selects exactly the "
-               "requested cells; the 9x9 matrix is symmetric (major symmetry) for the hard-coded basis and any symmetric other-field matrices. "
+               "requested cells; the 9x9 matrix has the major and both minor symmetries for the hard-coded basis and other-field matrices that have them. "
+               "copy/restrict_to_cells are modelled as the property requires (no re-validation); the coded copy re-runs the constructor checks and raises on "
+               "rotated singular admissible tensors (rounding) - open finding; on constructed tensors coded and property-level copy agree (theorem). "
+               "FourthOrderTensor offers no rotate method, so there is nothing to verify for rotation of fourth-order tensors. "
                "Partial: floating-point rounding and array aliasing are outside the theorems (oracle: numpy eigenvalues before/after, mutation of copies).")
 ASSUMPTIONS = ["parameters are exact in binary64 (dyadic generator); rational rotation matrices are rounded to binary64 for the real code"]
 
@@ -184,9 +189,22 @@ def _gen_cells(rng, nc):
         bad.insert(rng.randint(0, len(bad)), nc + rng.randint(0, 2))
         return {"idx": bad}, True
     if r < 0.4:
+        m = rng.random()
+        if m < 0.2:
+            return {"mask": [True] * nc}, False
+        if m < 0.3:
+            return {"mask": [False] * nc}, False
         return {"mask": [rng.random() < 0.5 for _ in range(nc)]}, False
     if nc == 0:
         return {"idx": []}, False
+    if r < 0.6:  # length num_cells, not arange: a permutation or repetitions
+        if rng.random() < 0.5:
+            p = list(range(nc))
+            rng.shuffle(p)
+            return {"idx": p}, False
+        return {"idx": [rng.randrange(nc) for _ in range(nc)]}, False
+    if r < 0.65:
+        return {"idx": list(range(nc))}, False
     return {"idx": [rng.randrange(nc) for _ in range(rng.randint(1, 6))]}, False
 
 
@@ -197,7 +215,7 @@ def _gen_sot(rng, tier):
     valid = cls in ("spd", "psd-edge", "broadcast")
     if valid:
         cur = nc
-        inexact_ok = cls != "psd-edge"
+        inexact_ok = True  # singular tensors + inexact rotation + copy/restrict is the known re-validation finding
         general_used = False
         for _ in range(rng.randint(0, 4 if tier == "quick" else 7)):
             k = rng.choice(["rotate", "rotate", "copy", "restrict"])
@@ -431,9 +449,12 @@ def _oracle_sot(case):
     for (i, j), e in exp.items():
         if not np.array_equal(v[i, j], np.broadcast_to(e, (nc,))):
             return {"what": f"values[{i},{j}] is not the parameter given for it", "key": f"sot-entry-{i}{j}"}
+    rounded = False  # a rotation with non-dyadic entries happened: values carry rounding errors
+    reval_key = lambda: ("sot-copy-revalidates-after-rotation" if (cls == "psd-edge" and rounded) else None)  # noqa: E731
     for k, op in enumerate(case["ops"]):
         scale = 1.0 + (float(np.max(np.abs(t.values))) if t.values.size else 0.0)
         if op["op"] == "rotate":
+            rounded = rounded or op["kind"] == "rational"
             R = np.array([[float(Fraction(x)) for x in row] for row in op["R"]])
             before = t.values.copy()
             ev0 = _eigs(before)
@@ -454,8 +475,9 @@ def _oracle_sot(case):
         elif op["op"] == "copy":
             try:
                 c = t.copy()
-            except ValueError:
-                return {"what": f"copy (op {k}) of an admissible tensor raised ValueError", "key": "sot-copy-raised"}
+            except ValueError as e:
+                return {"what": f"copy (op {k}) of an admissible {'singular ' if cls == 'psd-edge' else ''}tensor raised ValueError after rotation: {e}",
+                        "key": reval_key() or "sot-copy-raised"}
             if c.values.shape != t.values.shape or (t.values.size and np.max(np.abs(c.values - t.values)) > 1e-11 * scale):
                 return {"what": f"copy (op {k}) differs from the original", "key": "sot-copy-differs"}
             r = _check_independent(t, c, ["values"], "sot-copy")
@@ -472,8 +494,9 @@ def _oracle_sot(case):
                 if op.get("bad"):
                     continue
                 return {"what": f"restrict_to_cells (op {k}) raised IndexError on valid cells", "key": "sot-restrict-raised"}
-            except ValueError:
-                return {"what": f"restrict_to_cells (op {k}) of an admissible tensor raised ValueError", "key": "sot-restrict-raised"}
+            except ValueError as e:
+                return {"what": f"restrict_to_cells (op {k}) of an admissible {'singular ' if cls == 'psd-edge' else ''}tensor raised ValueError after rotation: {e}",
+                        "key": reval_key() or "sot-restrict-raised"}
             if op.get("bad"):
                 return {"what": f"restrict_to_cells (op {k}) accepted an out-of-range cell", "key": "sot-restrict-no-error"}
             if not np.array_equal(t.values, snap):
@@ -530,6 +553,11 @@ def _oracle_fot(case):
         return {"what": "values is not lmbda d_ij d_kl + mu (d_ik d_jl + d_il d_jk) (+ other fields)", "key": "fot-wrong-stiffness"}
     if case["extra_symmetric"] and _sym_dev(t.values) != 0.0:
         return {"what": "fourth-order tensor is not symmetric (major symmetry of the 9x9 matrix)", "key": "fot-not-symmetric"}
+    swap = [3 * (i % 3) + i // 3 for i in range(9)]
+    mats = [np.array(e["mat"]) for e in case["extra"]]
+    if all(np.array_equal(m[swap, :], m) and np.array_equal(m[:, swap], m) for m in mats):
+        if not (np.array_equal(t.values[swap, :, :], t.values) and np.array_equal(t.values[:, swap, :], t.values)):
+            return {"what": "fourth-order tensor lacks a minor symmetry (c_ijkl = c_jikl = c_ijlk)", "key": "fot-not-minor-symmetric"}
     if not np.array_equal(t.mu, mu) or not np.array_equal(t.lmbda, lm):
         return {"what": "mu / lmbda are not stored as given", "key": "fot-parameters"}
     for k, op in enumerate(case["ops"]):
